@@ -645,7 +645,7 @@ def rule_r8(ctx) -> List[R.Inst]:
     """read_pkgs: offsets come from the measure table; formula shapes; header tempo first"""
     M = ctx.M
     rid = "C07.R8"
-    fn = M.fn(MAP + ".read_pkgs")
+    fn = M.nfn(MAP + ".read_pkgs", closures=True)
     file = M.mods[fn.mod].rel
     insts = []
     # (a) integration steps have shape 4 * d(measure) / bpm minutes
@@ -693,10 +693,12 @@ def rule_r8(ctx) -> List[R.Inst]:
                             construct=unparse(ret[0]) if ret else ""))
     # (a2) the sweep's cursor (offset, measure, bpm) advances as one: every path that consumes a tempo event sets all three
     from .c17 import _branch_paths
-    whiles = [n for n in ast.walk(fn.node) if isinstance(n, ast.While)]
+    allwh = [n for n in ast.walk(fn.node) if isinstance(n, ast.While)]
+    # the sweep loop: the while nested in the loop over the note positions (a second, top-level `while <queue>:` drains the rest)
+    whiles = [w for w in allwh if any(isinstance(f, ast.For) and any(x is w for x in ast.walk(f)) for f in fn.node.body)] or allwh
     if len(whiles) == 1:
         bad = []
-        for cond, stmts, ex in _branch_paths(whiles[0].body):
+        for cond, stmts, ex in [p_ for w_ in ([whiles[0]] + [w for w in allwh if w is not whiles[0]]) for p_ in _branch_paths(w_.body)]:
             assigned = set()
             consumed = False
             for st in stmts:
@@ -705,6 +707,8 @@ def rule_r8(ctx) -> List[R.Inst]:
                         assigned.add(x.target.id)
                         if x.target.id == "bpm_ix":
                             consumed = True
+                    if isinstance(x, ast.Call) and call_name(x) in ("popleft", "pop") and isinstance(x.func, ast.Attribute):
+                        consumed = True        # queue form: taking the next event off the queue consumes it
                     if isinstance(x, ast.Assign):
                         for t in x.targets:
                             for nm in ast.walk(t):
@@ -837,13 +841,75 @@ def rule_r9(ctx) -> List[R.Inst]:
                    construct=f"no sort of {sorted(derived)} by .measure" + (f"; sorts {other[0][0]}" if other else ""))]
 
 
+def _queue_sweep(fn, sweep, wh, q, rid, file) -> Optional[List[R.Inst]]:
+    """the sweep written over a queue of pending events: `while Q and Q[0].measure <= q: e = Q.popleft(); ...`, then
+    `while Q: e = Q.popleft(); ...` — the same four obligations as for the index cursor"""
+    pops = [x for s_ in wh.body for x in ast.walk(s_) if isinstance(x, ast.Call) and call_name(x) in ("popleft", "pop") and
+            isinstance(x.func, ast.Attribute) and isinstance(x.func.value, ast.Name)]
+    if len(pops) != 1:
+        return None
+    Q = pops[0].func.value.id
+    left = call_name(pops[0]) == "popleft" or (pops[0].args and isinstance(pops[0].args[0], ast.Constant) and pops[0].args[0].value == 0)
+    qdef = [n for n in fn.node.body if isinstance(n, ast.Assign) and isinstance(n.targets[0], ast.Name) and n.targets[0].id == Q]
+    insts = []
+    conj = wh.test.values if isinstance(wh.test, ast.BoolOp) and isinstance(wh.test.op, ast.And) else [wh.test]
+    bound = any(isinstance(c, ast.Name) and c.id == Q for c in conj) or any(
+        isinstance(c, ast.Compare) and isinstance(c.left, ast.Call) and call_name(c.left) == "len" and unparse(c.left.args[0]) == Q for c in conj)
+    bound_first = bool(conj) and ((isinstance(conj[0], ast.Name) and conj[0].id == Q) or (
+        isinstance(conj[0], ast.Compare) and isinstance(conj[0].left, ast.Call) and call_name(conj[0].left) == "len"))
+    ahead = None
+    for c in conj:
+        if isinstance(c, ast.Compare) and len(c.ops) == 1:
+            for a, b, o in ((c.left, c.comparators[0], type(c.ops[0])),
+                            (c.comparators[0], c.left, {ast.Lt: ast.Gt, ast.LtE: ast.GtE, ast.Gt: ast.Lt, ast.GtE: ast.LtE}.get(type(c.ops[0])))):
+                if isinstance(a, ast.Attribute) and isinstance(a.value, ast.Subscript) and unparse(a.value.value) == Q and \
+                        isinstance(b, ast.Name) and b.id == q and o is not None:
+                    ahead = (a.value.slice, a.attr, o.__name__, c)
+    if ahead is None:
+        return [R.viol(rid, "sweep:look-ahead", file, wh.lineno,
+                       f"the sweep does not compare the position of the next pending tempo event ({Q}[0].measure) with the current note "
+                       f"position '{q}': which events are applied before a note is not decided by their positions", construct=unparse(wh.test)[:160])]
+    sl, attr, op, node = ahead
+    probs = []
+    head = isinstance(sl, ast.Constant) and sl.value == 0
+    if not (head and left):
+        probs.append(f"the look-ahead reads {Q}[{unparse(sl)}] but the iteration takes '{unparse(pops[0])}': a different element is consumed")
+    if op not in ("LtE", "Lt"):
+        probs.append(f"an event is applied when its position is {op} the note position; it must be applied when it lies at or before it")
+    if attr != "measure":
+        probs.append(f"the look-ahead compares '.{attr}', the events are sorted by '.measure'")
+    insts.append(R.viol(rid, "sweep:look-ahead", file, node.lineno, "; ".join(probs), construct=unparse(wh.test)[:160]) if probs else
+                 R.ok(rid, "sweep:look-ahead", file, node.lineno, idiom=f"{Q}[0].measure <= {q}, and {Q}[0] is the element taken"))
+    insts.append(R.ok(rid, "sweep:bounds", file, wh.lineno, idiom=f"'{Q}' non-empty guards the look-ahead") if bound and bound_first else
+                 R.viol(rid, "sweep:bounds", file, wh.lineno,
+                        f"the look-ahead {Q}[0] is not guarded by a non-emptiness test of '{Q}' evaluated before it: with no (further) tempo "
+                        f"event it raises IndexError", construct=unparse(wh.test)[:160]))
+    whole = len(qdef) == 1 and isinstance(qdef[0].value, ast.Call) and call_name(qdef[0].value) in ("deque", "list") and \
+        len(qdef[0].value.args) == 1 and isinstance(qdef[0].value.args[0], ast.Name)
+    insts.append(R.ok(rid, "sweep:first", file, qdef[0].lineno, idiom=f"{Q} starts as the whole event list: the first element taken is its first") if whole else
+                 R.undec(rid, "sweep:first", file, (qdef[0] if qdef else wh).lineno, f"initial contents of the queue '{Q}' not recognised"))
+    pos = fn.node.body.index(sweep)
+    trailing = None
+    for n in fn.node.body[pos + 1:]:
+        drains = (isinstance(n, ast.While) and ((isinstance(n.test, ast.Name) and n.test.id == Q) or Q in unparse(n.test)) and any(
+            isinstance(x, ast.Call) and call_name(x) in ("popleft", "pop") and unparse(x.func.value) == Q for x in ast.walk(n))) or \
+            (isinstance(n, ast.For) and unparse(n.iter) == Q)
+        if drains and any(isinstance(x, ast.Assign) and isinstance(x.targets[0], ast.Attribute) and x.targets[0].attr == "offset" for x in ast.walk(n)):
+            trailing = n
+    insts.append(R.ok(rid, "sweep:trailing", file, trailing.lineno, idiom=f"the events still pending in '{Q}' are timed after the sweep") if trailing is not None else
+                 R.viol(rid, "sweep:trailing", file, sweep.lineno,
+                        "tempo events after the last note are never consumed: their tempo points keep the time 0 they were created with",
+                        construct=f"no loop draining {Q} after the sweep"))
+    return insts
+
+
 def rule_r10(ctx) -> List[R.Inst]:
     """the tempo sweep is a merge of two sorted sequences (note positions, tempo events): the look-ahead tests the event that
     is consumed next, inside its bounds, against the current note position; every tempo event is consumed — those after the
     last note too — so every tempo point gets its time"""
     M = ctx.M
     rid = "C07.R10"
-    fn = M.fn(MAP + ".read_pkgs")
+    fn = M.nfn(MAP + ".read_pkgs", closures=True)
     file = M.mods[fn.mod].rel
     insts = []
     fors = [n for n in fn.node.body if isinstance(n, ast.For)]
@@ -856,6 +922,9 @@ def rule_r10(ctx) -> List[R.Inst]:
     incs = [s_ for s_ in wh.body if isinstance(s_, ast.AugAssign) and isinstance(s_.target, ast.Name) and isinstance(s_.op, ast.Add)
             and isinstance(s_.value, ast.Constant) and s_.value.value == 1]
     if len(incs) != 1:
+        qf = _queue_sweep(fn, sweep, wh, q, rid, file)
+        if qf is not None:
+            return qf
         return [R.undec(rid, "sweep", file, wh.lineno, "cursor increment not found in the sweep")]
     ix = incs[0].target.id
     inits = [n for n in fn.node.body if isinstance(n, ast.Assign) and isinstance(n.targets[0], ast.Name) and n.targets[0].id == ix]
